@@ -46,6 +46,19 @@ CLAIMED.update({
    design="§7 C14", technique="contract-based deductive verification (ghost event log for emitted warnings, loop-body postconditions; SMT)"),
 })
 
+CLAIMED["C16"]["text"]=("Deductive proof of the command-line contract: exit() exits with the configured code iff issues were found; checkFile prints exactly one line per warning "
+   "with (location, checker name, text) taken from that warning, sets foundIssues iff it printed and never resets it; checkPackage checks a file iff it is not filtered "
+   "(_test.go with test checking off, generated header with generated checking off) and runCheckers checks every loaded package; isGenerated/getFilename/addTrailingSlash/shortenLocation "
+   "meet their functional contracts (printed location expands back to the real path; native SMT strings). A defect in shortenLocation was found by a solver model, replayed on the real code and fixed.")
+CLAIMED.update({
+ "C08": dict(
+   text="Deductive proof of the analyzer side of front-end agreement: asDiag turns a warning into exactly the diagnostic 'name: text' at the same position and forwards the quick fix unchanged "
+        "as one TextEdit (field by field); runAnalyzer converts and reports every warning of every created checker for every file exactly once (per-iteration postconditions), "
+        "the CLI prints the same triple (C16 clauses shared). Selection and parameter agreement are C06/C14. NOT decided: that the analyzer offers every checker the CLI offers "
+        "(the registry snapshot is taken before embedded rules are registered - known finding), package loading and test-variant de-duplication.",
+   design="§7 C08", technique="contract-based deductive verification (field-level postconditions, ghost event logs; SMT)"),
+})
+
 NA_REASON_PENDING = "check not built yet in this round (planned, DESIGN §7); not claimed until its obligations discharge"
 NOT_APPLICABLE = {
  "C11": "no contract within reach can state equality of Go-regexp match behaviour between a pattern and the string printed from a third-party parse tree (DESIGN §8)",
